@@ -61,15 +61,16 @@ RULE = ('(a) exhaustive table: every pool cell (numbers, numeric text, texts in 
         'list.  A case = one function call checked by the oracle; non-trivial = the criteria discriminate on '
         'the drawn ranges (at least one position not rejected and one rejected) or the ranges differ in shape; '
         'distinct = by (function, ranges, criteria).')
-BUDGET = {'quick': 22, 'thorough': 200}
+BUDGET = {'quick': 10, 'thorough': 200}
 FLOORS = {
-    'quick': {'table:cells-x-criteria': 9000, 'fixed-range-cases': 500, 'shape-mismatch-pairs': 210,
-              'sampled-cases': 4000, 'cases:closed': 2500, 'cases:bounded-open': 1500,
-              'law:ifs=if': 4000, 'law:commute': 1500, 'law:partition': 6000, 'law:avg=sum/count': 800,
-              'selected-error-calls': 300, 'tie:evaluate-formulas': 150, 'distinct': 15000},
-    'thorough': {'table:cells-x-criteria': 9000, 'fixed-range-cases': 500, 'shape-mismatch-pairs': 210,
-                 'sampled-cases': 60000, 'cases:closed': 40000, 'cases:bounded-open': 25000,
-                 'law:ifs=if': 60000, 'law:commute': 25000, 'law:partition': 90000,
+    # the first three are set to the exact size of the deterministic parts further down
+    'quick': {'table:cells-x-criteria': 1, 'fixed-range-cases': 1, 'shape-mismatch-pairs': 1,
+              'sampled-cases': 3000, 'cases:closed': 2500, 'cases:bounded-open': 1500,
+              'law:ifs=if': 4000, 'law:commute': 1500, 'law:partition': 4000, 'law:avg=sum/count': 800,
+              'selected-error-calls': 300, 'tie:evaluate-formulas': 150, 'distinct': 12000},
+    'thorough': {'table:cells-x-criteria': 1, 'fixed-range-cases': 1, 'shape-mismatch-pairs': 1,
+                 'sampled-cases': 50000, 'cases:closed': 40000, 'cases:bounded-open': 25000,
+                 'law:ifs=if': 60000, 'law:commute': 25000, 'law:partition': 60000,
                  'law:avg=sum/count': 12000, 'selected-error-calls': 5000, 'tie:evaluate-formulas': 2500,
                  'distinct': 200000},
 }
@@ -126,6 +127,10 @@ def criteria_list():
 
 
 CRITERIA = criteria_list()
+for _tier in FLOORS:        # the deterministic parts are complete by construction
+    FLOORS[_tier]['table:cells-x-criteria'] = len(POOL) * len(CRITERIA)
+    FLOORS[_tier]['fixed-range-cases'] = 3 * len(CRITERIA)
+    FLOORS[_tier]['shape-mismatch-pairs'] = 15 * 14
 
 FIXED_RANGES = {
     'all-classes': ((1, 'abc', True), (3, 'ABC', None), ('3', '', '#N/A'), (2.5, 'a*', False),
@@ -250,14 +255,14 @@ def malformed_key(call, v):
     return f'{call.fam}/non-value-result'
 
 
-def mechanism(crit, v, partition=False):
-    """mechanism key of a single criteria-range cell that is selected / counted wrongly"""
+def mechanism(crit, v, got, partition=False):
+    """mechanism key of a single criteria-range cell v that pycel selects (got=1) / skips (got=0) wrongly"""
     cc = cr.cell_class(v)
-    if crit.kind == 'text' and crit.has_wild:
-        if crit.op == '<>':
-            return 'not-equal-criterion/wildcards-ignored'
+    if crit.kind == 'text' and crit.has_wild and isinstance(v, str):
+        if crit.op == '<>' and (got == 1) == (v.lower() != crit.text.lower()):
+            return 'not-equal-criterion/wildcards-ignored'      # answers as if ? and * were literal
         if crit.op == '=':
-            if isinstance(v, str) and '\n' in v:
+            if '\n' in v:
                 return 'wildcard-criterion/newline-in-cell'
             if crit.has_meta:
                 return 'wildcard-criterion/regex-metachar-unescaped'
@@ -292,7 +297,7 @@ def diagnose(pairs):
                 continue
             got = single(v, c)
             if got is not None and (got == 1) != (verdict == cr.YES):
-                return mechanism(crit, v)
+                return mechanism(crit, v, got)
     return None
 
 
@@ -306,8 +311,8 @@ def diagnose_partition(r, eq, ne):
         for crit, got in ((ceq, a), (cne, b)):
             verdict = cr.match(v, crit)
             if verdict != cr.OPEN and (got == 1) != (verdict == cr.YES):
-                return mechanism(crit, v)
-        return mechanism(cne, v, partition=True)
+                return mechanism(crit, v, got)
+        return mechanism(cne, v, b, partition=True)
     return None
 
 
@@ -548,8 +553,9 @@ def check_case(ctx, case):
 def tie(K, agg, pairs, calls):
     """the same calls as formulas of a real worksheet, evaluated by ExcelCompiler"""
     ctx = K.ctx
-    if any(isinstance(c, str) and ('\n' in c or '\r' in c) for _, c in pairs):
-        ctx.count('tie:skipped-newline-in-criterion-literal')    # the formula tokenizer is C02's business
+    if any(isinstance(c, str) and any(ch in c for ch in '\n\r\\') for _, c in pairs):
+        # LF / CR / backslash inside a text literal of a formula: the translation of literals is C02's business
+        ctx.count('tie:skipped-criterion-literal-with-LF-CR-backslash')
         return
     cells, where = {}, {}
 
